@@ -283,6 +283,28 @@ def check_sections(fx, rep, rule, wv, seqs):
                   expected="magic = PRGCACHE_MAGIC, version = PRGCACHE_VERSION", nontrivial=False)
         # the class map as of the end of the record loop (+ epilogue insert)
         flat_loop = [L for L in wv.loops if L is not rl.loop]
+        inner_extends = {}
+        if len(flat_loop) > 1:
+            # `for group in c.members.into_values() { members.extend(group) }` nested in the flatten loop instead of
+            # `members.extend(c.members.into_values().flatten())`: the inner loops are read as that one extend
+            outer = [L for L in flat_loop if any(e[0] == "loopsum" for st_, o_ in L["paths"] for e in st_.effects)]
+            if len(outer) == 1:
+                import readers as RD_
+                okin = True
+                for L in flat_loop:
+                    if L is outer[0]:
+                        continue
+                    d_ = RD_.driver_of_loop(L)
+                    conts = [(st_, o_) for st_, o_ in L["paths"] if o_[0] == S.CONT]
+                    base_ = len(L["entry"].conds)
+                    eff = [fc.rewrite(e, R.rw_iter) for st_, o_ in conts for e in st_.effects if e[0] == "call" and not R.is_next(e[1])]
+                    if d_ is not None and len(conts) == 1 and len(eff) == 1 and eff[0][1].endswith("Extend::extend") and eff[0][2][1] == R.ELEM \
+                            and eff[0][2][0][0] == "place" and d_[0] == "call" and d_[1].endswith(("BTreeMap::into_values", "BTreeMap::values")):
+                        inner_extends[L["index"]] = ("call", "std::iter::Extend::extend", (eff[0][2][0], ("call", "std::iter::Iterator::flatten", (d_,))), 0)
+                    else:
+                        okin = False
+                if okin:
+                    flat_loop = outer
         if len(flat_loop) != 1:
             rep.undecidable(rule, "%s/flatten-loop" % rule, loc=F.short_file(rl.body["sp"]),
                             construct="expected exactly one flatten loop after the record loop, found %d" % len(flat_loop))
@@ -338,12 +360,18 @@ def check_sections(fx, rep, rule, wv, seqs):
                             construct="flatten loop body has %d iteration paths (expected 1 straight-line body)" % len(it_paths))
             return results
         st, _ = it_paths[0]
-        effs = [fc.rewrite(e, R.rw_iter) for e in st.effects]
+        effs = [fc.rewrite(inner_extends.get(e[1], e) if e[0] == "loopsum" else e, R.rw_iter) for e in st.effects]
         idx = FL_["index"]
         vecs = {}   # section name -> vector var name
+        def pl_name(pl):
+            return pl[1] if not pl[2] else pl[1] + "." + ".".join(pl[2])
         for sec_name, vec_term in (("classes", classes_v), ("members", members_v), ("members_by_params", byparams_v)):
             vt = strip_deref(vec_term)
-            vecs[sec_name] = vt[1] if vt[0] == "loop" else None
+            fpath = []
+            while vt[0] == "field":         # the three vectors may be the fields of one accumulator struct
+                fpath.insert(0, vt[2])
+                vt = vt[1]
+            vecs[sec_name] = (vt[1] + "".join("." + x for x in fpath)) if vt[0] == "loop" else None
             rep.check(rule, "%s/section-source/%s" % (rule, sec_name), vt[0] == "loop" and vt[2] == idx, loc=F.short_file(rl.body["sp"]),
                       found="%s section emits %s" % (sec_name, S.tstr(vt)), expected="the vector filled by the flatten loop", nontrivial=False)
         order = []
@@ -353,15 +381,22 @@ def check_sections(fx, rep, rule, wv, seqs):
         for i, e in enumerate(effs):
             if e[0] == "assign" and e[1][0] == "place" and len(e[1][2]) == 2 and e[1][2][0] == "class":
                 assigns[e[1][2][1]] = (i, e[2])
-            if e[0] == "call" and e[1].endswith("Extend::extend"):
-                extends[e[2][0][1]] = (i, e[2][1])
-            if e[0] == "call" and e[1].endswith("Vec::push"):
-                pushes.append((i, e[2][0][1], e[2][1]))
+            elif e[0] == "assign" and e[1][0] == "place" and len(e[1][2]) == 1 and e[1][2][0].endswith("_offset"):
+                # the entry was moved out of the map value first (`let ClassInProgress { mut class, .. } = c;`): same fields,
+                # on the local that is pushed below (its origin - this class's entry - is checked on the push)
+                assigns[e[1][2][0]] = (i, e[2])
+            if e[0] == "call" and e[1].endswith("Extend::extend") and e[2][0][0] == "place":
+                extends[pl_name(e[2][0])] = (i, e[2][1])
+            if e[0] == "call" and e[1].endswith("Vec::push") and e[2][0][0] == "place":
+                pushes.append((i, pl_name(e[2][0]), e[2][1]))
         for X in ("members", "members_by_params"):
             vec = vecs.get(X)
             off = assigns.get(X + "_offset")
             ext = extends.get(vec)
-            want_off = ("call", "std::vec::Vec::len", (("loop", vec, idx),))
+            vroot = ("loop", vec.split(".")[0], idx) if vec else None
+            for fp_ in (vec.split(".")[1:] if vec else []):
+                vroot = mk_field(vroot, fp_)
+            want_off = ("call", "std::vec::Vec::len", (vroot,))
             got = strip_cast_t(off[1]) if off else None
             key = "%s/tiling/%s_offset<-%s" % (rule.split(".")[0], X, "len(%s)" % (got[2][0][1] if got and got[0] == "call" and got[2] and got[2][0][0] == "loop" else "?"))
             good = off is not None and got == want_off
